@@ -3,6 +3,7 @@ package main
 import (
 	"encoding/hex"
 	"fmt"
+	"runtime"
 	"strings"
 	"time"
 
@@ -57,6 +58,7 @@ func runDecode(cfg *Cfg) {
 			out.Line("schema", t.S.Line(), "schema wf msgs="+fmt.Sprint(len(t.S.Msgs)))
 		}
 		en := enumNums(t)
+		deepAndBig(out, t, r, cfg.Tier)
 		for c := 0; c < perTarget; c++ {
 			g := &vval.StreamGen{R: r, S: t.S, G: &vval.GenOpts{EnumNums: en}, Features: map[string]bool{}, MaxDepth: 1 + r.Intn(3)}
 			bs := g.Message(0, 0)
@@ -81,6 +83,141 @@ func runDecode(cfg *Cfg) {
 			decodeCase(out, t, g, bs, into, merge, discard, malformed, modelOK)
 		}
 	}
+}
+
+// deepAndBig: C06 clauses that need dedicated inputs — nesting around and far beyond the protobuf-go
+// recursion limit on every type that can nest (compared with the reference decoder's verdict), and
+// adversarial length / count claims with the heap growth measured.
+var deepTargets int
+
+func deepAndBig(out *Out, t *Target, r *vschema.Rand, tier string) {
+	// a cycle of singular / repeated / oneof message fields from the root back to the root
+	path := nestPath(t.S)
+	if len(path) > 0 {
+		deepTargets++
+	}
+	if len(path) > 0 && (tier == "thorough" || deepTargets <= 4) {
+		depths := []int{9998, 9999, 10000, 10001, 20000}
+		if tier == "thorough" {
+			depths = append(depths, 100001, 400000)
+		}
+		for _, n := range depths {
+			bs := nestBytes(t.S, path, n)
+			msg := t.B.ToMessage(0, vval.Empty(t.S, 0))
+			var err error
+			p, pm := guard(func() { err = proto.Unmarshal(bs, msg) })
+			out.Case(fmt.Sprintf("deep:%s:%d", t.Full, n), true)
+			replay := fmt.Sprintf("deep %s nesting=%d along fields %v", t.Full, n, path)
+			if p {
+				out.Violate("C06", "deep-panic", "panic on deeply nested input: "+firstLine(pm), replay)
+				continue
+			}
+			dyn := dynamicpb.NewMessage(t.Desc)
+			refErr := proto.Unmarshal(bs, dyn)
+			if (err == nil) != (refErr == nil) {
+				out.Violate("C06", "depth-limit", fmt.Sprintf("nesting %d: generated code err=%v, reference err=%v", n, err, refErr), replay)
+			}
+			if err == nil {
+				// Marshal of a chain is quadratic in its depth (no size cache): only in the thorough tier
+				if p2, pm2 := guard(func() {
+					_ = proto.Size(msg)
+					if tier == "thorough" {
+						_, _ = proto.Marshal(msg)
+					}
+				}); p2 {
+					out.Violate("C06", "post-unusable-deep", "accepted deep message cannot be marshalled: "+firstLine(pm2), replay)
+				}
+			}
+			out.Count("deep_cases")
+		}
+	}
+	// allocation in proportion to the input: length / element-count claims far beyond the input size
+	for c := 0; c < 40; c++ {
+		m := &t.S.Msgs[0]
+		if len(m.Fields) == 0 {
+			break
+		}
+		f := m.Fields[r.Intn(len(m.Fields))]
+		var bs []byte
+		bs = protowire.AppendTag(bs, protowire.Number(f.Num), protowire.BytesType)
+		claim := []uint64{1 << 20, 1 << 30, 1<<31 - 1, 1 << 40, 1<<62 - 1}[r.Intn(5)]
+		bs = protowire.AppendVarint(bs, claim)
+		tail := make([]byte, r.Intn(64))
+		for i := range tail {
+			tail[i] = byte(r.Intn(3)) // mostly small varints: maximises the packed element count
+		}
+		bs = append(bs, tail...)
+		msg := t.B.ToMessage(0, vval.Empty(t.S, 0))
+		var ms0, ms1 runtime.MemStats
+		runtime.ReadMemStats(&ms0)
+		p, pm := guard(func() { _ = proto.Unmarshal(bs, msg) })
+		runtime.ReadMemStats(&ms1)
+		out.Case(fmt.Sprintf("alloc:%s:%x", t.Full, bs), true)
+		replay := fmt.Sprintf("alloc %s x%x", t.Full, bs)
+		if p {
+			out.Violate("C06", "unmarshal-panic", "panic on adversarial length: "+firstLine(pm), replay)
+			continue
+		}
+		grown := ms1.TotalAlloc - ms0.TotalAlloc
+		if grown > uint64(64*len(bs))+(1<<20) {
+			out.Violate("C06", "alloc-disproportionate", fmt.Sprintf("%d input bytes made Unmarshal allocate %d bytes", len(bs), grown), replay)
+		}
+		out.Count("alloc_cases")
+	}
+}
+
+// nestPath: field indexes (into successive messages) of a cycle of message-typed singular / repeated /
+// oneof fields leading from message 0 back to message 0; nil when the root cannot nest in itself.
+func nestPath(s *vschema.Schema) []int {
+	type st struct {
+		msg  int
+		path []int
+	}
+	seen := map[int]bool{}
+	queue := []st{{0, nil}}
+	for len(queue) > 0 {
+		cur := queue[0]
+		queue = queue[1:]
+		for j, f := range s.Msgs[cur.msg].Fields {
+			if !f.IsMsg || f.Shape == vschema.Map {
+				continue
+			}
+			np := append(append([]int(nil), cur.path...), j)
+			if f.Msg == 0 {
+				return np
+			}
+			if !seen[f.Msg] {
+				seen[f.Msg] = true
+				queue = append(queue, st{f.Msg, np})
+			}
+		}
+	}
+	return nil
+}
+
+// nestBytes: n nested length-delimited records following the cycle.
+func nestBytes(s *vschema.Schema, path []int, n int) []byte {
+	// numbers along the cycle
+	nums := make([]int, len(path))
+	mi := 0
+	for k, j := range path {
+		f := s.Msgs[mi].Fields[j]
+		nums[k] = f.Num
+		mi = f.Msg
+	}
+	// lengths bottom-up, then one forward pass (linear)
+	lens := make([]int, n+1)
+	for level := n - 1; level >= 0; level-- {
+		num := nums[level%len(nums)]
+		lens[level] = protowire.SizeTag(protowire.Number(num)) + protowire.SizeVarint(uint64(lens[level+1])) + lens[level+1]
+	}
+	out := make([]byte, 0, lens[0])
+	for level := 0; level < n; level++ {
+		num := nums[level%len(nums)]
+		out = protowire.AppendTag(out, protowire.Number(num), protowire.BytesType)
+		out = protowire.AppendVarint(out, uint64(lens[level+1]))
+	}
+	return out
 }
 
 func mutate(r *vschema.Rand, bs []byte) []byte {
